@@ -1,6 +1,7 @@
 import RdfModel.Driver.Wire
 import RdfModel.Model.NQuads
 import RdfModel.Model.GoUrl
+import RdfModel.Model.IriUnify
 import RdfModel.Gen.NQTables
 import RdfModel.Spec.NQuadsGrammar
 namespace RdfModel.Driver.NQ
@@ -49,7 +50,9 @@ def handle (op : String) (args : List String) : Option String :=
     let (T, quads) ← tablesOf pkg
     let e ← (if e = "eof" then some End.eof else if e = "io" then some End.ioerr else none)
     let rs ← runesTok inp
-    let (qs, v) := run T GoUrl.parseAbsOk e quads rs
+    -- urlOk = the full net/url model (Model/GoUrlFull.lean, tied exactly by `piri.*`) on the UTF-8 bytes of the
+    -- runes; equal to `GoUrl.parseAbsOk` on those bytes for every input: Props/IriUnify.lean
+    let (qs, v) := run T IriUnify.urlOk e quads rs
     pure (String.intercalate ";" (qs.map showQuad) ++ "|" ++ showVerdict v)
   | "accepts", [pkg, inp] => do
     let (T, quads) ← tablesOf pkg
@@ -57,7 +60,7 @@ def handle (op : String) (args : List String) : Option String :=
     pure (toString (Spec.NQG.accepts (inRanges T.pnCharsU) (inRanges T.pnChars) quads rs))
   | "url", [s] => do
     let rs ← runesTok s
-    pure (if GoUrl.parseAbsOk rs then "abs" else if GoUrl.parseOk rs then "rel" else "bad")
+    pure (if IriUnify.urlOk rs then "abs" else if GoUrl.parseOk rs then "rel" else "bad")
   | _, _ => none
 
 end RdfModel.Driver.NQ
